@@ -304,6 +304,12 @@ def gen_preamble(rng, i, allow_drift):
                 used.add(m)
         lines.append("@{%s} = %s" % (lv, " ".join(vals)))
         localvars.append(lv)
+    if rng.random() < 0.15:
+        # an append to a variable of the shipped tunables (valid policy: tunables/global is included above); it belongs to this
+        # file only, later files of the same process must not see it
+        bv = rng.choice(["bin", "lib", "sbin", "etc_ro"])
+        lines.append("@{%s} += /opt/%s/%s" % (bv, name, bv))
+        used.add(bv)
     nv = rng.randint(1, 3)
     lines.append("@{exec_path} = " + " ".join(value() for _ in range(nv)))
     for k in range(rng.randint(0, 3)):
